@@ -1,42 +1,127 @@
 import Spine.Approval
-/-! C12 across connections: `RemoveRemoteDevice` → `CleanWriteApprovalCaches(ski)` stops the timers of the peer's
-    pending writes and forgets its pending map and its tally map; a peer that connects again (same SKI) starts its
-    message counters over, so counters are reused. `dropConn` is that clean-up on the one-peer model; verdict
-    operations that have already looked a write up (`lookups`) and timeouts already in flight (`fired`) go on. -/
-namespace Spine.Appr
+/-! C12 across connections, as the code keys its maps: by the peer's SKI and the MESSAGE COUNTER. A peer that is
+    disconnected and connects again (same SKI) starts its counters over, so a counter names different write
+    instances over time. An instance is `(epoch, counter)`; `pending`, the tally and the timeout closure's deletes are
+    keyed by the counter alone, timers and messages are objects of their instance.
 
-def dropConn (s : St) : St := { s with pending := [], armed := [], tally := none, seen := [] }
+    `Cfg` is the defect family (all `false`/`true` as noted = the fully repaired member):
+    * `tallyReset`, `ignoreStop` — the two defects of `Spine/Approval.lean` (repaired in /repo since);
+    * `recheck` — `ApproveOrDenyWrite` re-checks, before it counts, that the pending entry of the counter still holds
+      the timer it looked up (`false` = as written before that repair: it counts first and asks `timer.Stop()` later);
+    * `msgId` — the pending lookup requires the pending MESSAGE of the counter to be the verdict's own message
+      (`false`: a verdict for a message of an earlier connection is taken for the write that reuses its counter).
 
-/-- events of a peer over several connections -/
-inductive CEv
-  | ev (e : Ev)
+    The instance-keyed model `Spine.Appr` (with its `drop` event) is what the all-schedule theorems are about; the
+    driver runs both side by side for the fully repaired member and reports any divergence of their outcomes. -/
+namespace Spine.ApprE
+open Spine.Appr (Out)
+
+abbrev Inst := Nat × Nat      -- (epoch of the connection, message counter)
+
+structure Cfg where
+  tallyReset : Bool := false
+  ignoreStop : Bool := false
+  recheck : Bool := true
+  msgId : Bool := true
+deriving Repr
+
+structure St where
+  nCb : Nat
+  ep : Nat := 0                                  -- the peer's current connection
+  seen : List Inst := []
+  pending : List Inst := []                      -- pendingWriteApprovals[ski]: counter ↦ timer (the instance's)
+  armed : List Inst := []                        -- timers neither fired nor stopped
+  tally : Option (List (Nat × Nat)) := none      -- writeApprovalReceived[ski]: counter ↦ approvals
+  lookups : List (Nat × Inst × Inst) := []       -- verdict op ↦ (its message, the timer it looked up)
+  fired : List Inst := []
+  outcomes : List (Inst × Out) := []
+  presented : Nat := 0
+
+inductive Ev
+  | arrive (c : Nat)
+  | lookup (op : Nat) (m : Inst)
+  | commit (op : Nat) (approve : Bool)
+  | timeoutTake (t : Inst)
+  | timeoutSend (t : Inst)
   | drop
 
-def cstep (c : Cfg) (s : St) : CEv → St
-  | .ev e => step c s e
-  | .drop => dropConn s
+def byCtr (l : List Inst) (c : Nat) : Option Inst := l.find? (·.2 = c)
 
-def crun (c : Cfg) (n : Nat) (evs : List CEv) : St := evs.foldl (cstep c) { nCb := n }
+def bump (cf : Cfg) (t : Option (List (Nat × Nat))) (c : Nat) : List (Nat × Nat) × Nat :=
+  match t with
+  | some m => match m.find? (·.1 = c) with
+    | some (_, n) => ((m.filter (·.1 ≠ c)) ++ [(c, n + 1)], n + 1)
+    | none => if cf.tallyReset then ([(c, 1)], 1) else (m ++ [(c, 1)], 1)
+  | none => ([(c, 1)], 1)
 
-/-- after the clean-up nothing is pending, no timer is armed and no approval is remembered: a reused counter starts
-    from nothing — provided no verdict operation is between its lookup and its commit at that moment -/
-theorem dropConn_clean (s : St) :
-    (dropConn s).pending = [] ∧ (dropConn s).armed = [] ∧ (dropConn s).tally = none ∧ (dropConn s).seen = [] :=
-  ⟨rfl, rfl, rfl, rfl⟩
+/-- the tail of ApproveOrDenyWrite once the verdict is final: `m` the verdict's message, `t` the timer looked up -/
+def finish (cf : Cfg) (s : St) (m t : Inst) (approve : Bool) : St :=
+  let stopped := s.armed.contains t
+  let s := { s with armed := s.armed.filter (· ≠ t), tally := s.tally.map (·.filter (·.1 ≠ m.2)) }
+  if cf.ignoreStop || stopped then
+    { s with pending := s.pending.filter (·.2 ≠ m.2),
+             outcomes := s.outcomes ++ [(m, if approve then .applied else .error)] }
+  else s
 
-/-- the code as it is (both earlier repairs in place): a verdict that looked the write up before the connection was
-    removed and commits after it leaves its approval in a fresh tally map; the peer connects again, reuses the
-    counter, and ONE further approval applies the write although two callbacks are registered -/
+def step (cf : Cfg) (s : St) : Ev → St
+  | .arrive c =>
+    if s.seen.contains (s.ep, c) then s
+    else { s with seen := (s.ep, c) :: s.seen, pending := (s.ep, c) :: s.pending.filter (·.2 ≠ c),
+                  armed := (s.ep, c) :: s.armed, presented := s.presented + s.nCb }
+  | .lookup op m =>
+    match byCtr s.pending m.2 with
+    | none => s
+    | some t => if cf.msgId && t != m then s else { s with lookups := (op, m, t) :: s.lookups }
+  | .commit op approve =>
+    match s.lookups.find? (·.1 = op) with
+    | none => s
+    | some (_, m, t) =>
+      let s := { s with lookups := s.lookups.filter (·.1 ≠ op) }
+      if cf.recheck && byCtr s.pending m.2 != some t then s
+      else if s.nCb > 1 && approve then
+        let (tl, n) := bump cf s.tally m.2
+        let s := { s with tally := some tl }
+        if n < s.nCb then s else finish cf s m t approve
+      else finish cf s m t approve
+  | .timeoutTake t =>
+    if s.armed.contains t then
+      { s with armed := s.armed.filter (· ≠ t), pending := s.pending.filter (·.2 ≠ t.2), fired := t :: s.fired }
+    else s
+  | .timeoutSend t =>
+    if s.fired.contains t then
+      { s with fired := s.fired.filter (· ≠ t), outcomes := s.outcomes ++ [(t, .error)] }
+    else s
+  | .drop => { s with pending := [], armed := [], tally := none, ep := s.ep + 1 }
+
+def run (cf : Cfg) (n : Nat) (evs : List Ev) : St := evs.foldl (step cf) { nCb := n }
+
+/-- /repo before the repair (`recheck = false`): a verdict past its lookup when the connection is removed commits
+    after the clean-up and leaves its approval in a fresh tally map; the peer reconnects, reuses counter 5, and ONE
+    further approval applies the new write although two callbacks are registered -/
 theorem stale_tally_after_disconnect_witness :
-    (crun Cfg.clean 2 [.ev (.arrive 5), .ev (.lookup 10 5), .drop, .ev (.commit 10 true),
-      .ev (.arrive 5), .ev (.lookup 11 5), .ev (.commit 11 true)]).outcomes = [(5, .applied)] := by decide
+    (run { recheck := false, msgId := false } 2 [.arrive 5, .lookup 10 (0, 5), .drop, .commit 10 true,
+      .arrive 5, .lookup 11 (1, 5), .commit 11 true]).outcomes = [((1, 5), .applied)] := by decide
 
-/-- without a verdict in flight at the disconnect the reused counter needs both approvals -/
-example :
-    (crun Cfg.clean 2 [.ev (.arrive 5), .ev (.lookup 10 5), .ev (.commit 10 true), .drop,
-      .ev (.arrive 5), .ev (.lookup 11 5), .ev (.commit 11 true)]).outcomes = [] ∧
-    (crun Cfg.clean 2 [.ev (.arrive 5), .ev (.lookup 10 5), .ev (.commit 10 true), .drop,
-      .ev (.arrive 5), .ev (.lookup 11 5), .ev (.commit 11 true), .ev (.lookup 12 5), .ev (.commit 12 false)]).outcomes
-      = [(5, .error)] := by decide
+/-- with the re-check the verdict that commits after the clean-up is a no-op, and so is a verdict that looked up
+    before the disconnect and commits after the counter has been reused (another timer is pending then) -/
+theorem recheck_repairs :
+    (run { msgId := false } 2 [.arrive 5, .lookup 10 (0, 5), .drop, .commit 10 true,
+      .arrive 5, .lookup 11 (1, 5), .commit 11 true]).outcomes = [] ∧
+    (run { msgId := false } 2 [.arrive 5, .lookup 10 (0, 5), .drop, .arrive 5, .commit 10 true,
+      .lookup 11 (1, 5), .commit 11 true, .lookup 12 (1, 5), .commit 12 true]).outcomes = [((1, 5), .applied)] := by
+  decide
 
-end Spine.Appr
+/-- the re-check alone (`msgId = false`) does not know whose verdict it is: a verdict for the message of the EARLIER
+    connection, delivered entirely after the counter has been reused, finds the new write's timer, passes the
+    re-check, stops that timer and applies the OLD message; the new write never gets an outcome -/
+theorem old_verdict_after_reuse_witness :
+    let s := run { msgId := false } 1 [.arrive 5, .drop, .arrive 5, .lookup 10 (0, 5), .commit 10 true,
+      .timeoutTake (1, 5), .timeoutSend (1, 5)]
+    s.outcomes = [((0, 5), .applied)] ∧ s.pending = [] ∧ s.armed = [] := by decide
+
+/-- the fully repaired member: that verdict is not taken for the new write, which times out on its own -/
+theorem old_verdict_after_reuse_repaired :
+    (run {} 1 [.arrive 5, .drop, .arrive 5, .lookup 10 (0, 5), .commit 10 true,
+      .timeoutTake (1, 5), .timeoutSend (1, 5)]).outcomes = [((1, 5), .error)] := by decide
+
+end Spine.ApprE
